@@ -110,71 +110,35 @@ def dropLeadingComments : List Line → List Line
 
 def suppressFirstComments (t : Text) : Text := joinNl (dropLeadingComments (splitNl t))
 
-/-! ### 2. `suppress_main_guard` : the top-level `if` blocks whose first line matches
-`if +__name__ *== *.__main__. *:` (repair 9ee7189: the blocks are delimited by the PARSER) -/
-
-def kwName : Text := "__name__".toList
-def kwMain : Text := "__main__".toList
-
-/-- After `.__main__`: `. *:` — one character other than a newline, spaces, a colon. -/
-def guardTail (s : Text) : Bool :=
-  match s with
-  | [] => false
-  | c :: r =>
-    c != '\n' &&
-      match skipSpaces r with
-      | ':' :: _ => true
-      | _ => false
-
-/-- After `==`: ` *.__main__` then `guardTail`. The `.` may itself eat the last of the spaces. -/
-def guardAfterEq (s : Text) : Bool :=
-  let s' := skipSpaces s
-  (match s' with
-   | c :: r => c != '\n' &&
-     match dropPrefix? kwMain r with
-     | some r' => guardTail r'
-     | none => false
-   | [] => false)
-  || (s'.length < s.length &&
-      match dropPrefix? kwMain s' with
-      | some r' => guardTail r'
-      | none => false)
-
-/-- `regex.compile(r"if +__name__ *== *.__main__. *:").match(line)` succeeds. -/
-def guardLine (s : Text) : Bool :=
-  match dropPrefix? "if ".toList s with
-  | none => false
-  | some s1 =>
-    match dropPrefix? kwName (skipSpaces s1) with
-    | none => false
-    | some s2 =>
-      match dropPrefix? "==".toList (skipSpaces s2) with
-      | none => false
-      | some s3 => guardAfterEq s3
+/-! ### 2. `suppress_main_guard` : the top-level `if` statements whose TEST is `__name__ == '__main__'`
+(the blocks are delimited, and the guards recognised, by the PARSER: `ast.dump(node.test) == guard`) -/
 
 /-- `del lines[a - 1 : b]` -/
 def delRange (ls : List Line) (a b : Nat) : List Line := ls.take (a - 1) ++ ls.drop b
 
-/-- `match(lines[a - 1])` (an index out of range — impossible for CPython's parser — counts as no match) -/
-def isGuardAt (ls : List Line) (a : Nat) : Bool :=
-  match ls[a - 1]? with
-  | some l => guardLine l
-  | none => false
+/-- A top-level `if` statement as the parser reports it: `lineno`, `end_lineno`, and whether its test
+dumps like `__name__ == '__main__'` (whatever the spacing, tabs, line continuations, parentheses or
+quotes of the source). -/
+structure IfStmt where
+  lineno : Nat
+  endLineno : Nat
+  isGuard : Bool
+  deriving DecidableEq, Repr, Inhabited
 
-/-- The loop `for node in reversed(statements)`: `ranges` are the `(lineno, end_lineno)` of the
-top-level `if` statements IN THE ORDER THE LOOP VISITS THEM (last statement first). -/
-def dropGuards (ls : List Line) : List (Nat × Nat) → List Line
+/-- The loop `for node in reversed(statements)`: `ranges` are the top-level `if` statements IN THE
+ORDER THE LOOP VISITS THEM (last statement first). -/
+def dropGuards (ls : List Line) : List IfStmt → List Line
   | [] => ls
-  | (a, b) :: rest => dropGuards (if isGuardAt ls a then delRange ls a b else ls) rest
+  | r :: rest => dropGuards (if r.isGuard then delRange ls r.lineno r.endLineno else ls) rest
 
 /-- `suppress_main_guard`. The parser is an oracle: `none` when `ast.parse` raises SyntaxError or
-ValueError, else the `(lineno, end_lineno)` of the top-level `if` statements in source order. -/
-def suppressMainGuard (ifs : Option (List (Nat × Nat))) (t : Text) : Text :=
+ValueError, else the top-level `if` statements in source order. -/
+def suppressMainGuard (ifs : Option (List IfStmt)) (t : Text) : Text :=
   match ifs with
   | none => t
   | some rs => joinNl (dropGuards (splitNl t) rs.reverse)
 
-/-! ### 3. `suppress_sys_path_injection` : `(?m)^__import__\("sys"\)\.path\[0:0\] = .+\n` ↦ "" -/
+/-! ### 3. `suppress_sys_path_injection` : `(?m)^__import__\("sys"\)\.path\[0:0\] = .+\n?` ↦ "" -/
 
 def sysPathPrefix : Text := "__import__(\"sys\").path[0:0] = ".toList
 
@@ -183,10 +147,11 @@ def isInjection (l : Line) : Bool :=
   | some r => !r.isEmpty
   | none => false
 
-/-- Drop the injection lines; the last element of the split is not newline-terminated: kept. -/
+/-- Drop the injection lines. A line followed by a newline goes with its newline; the last element of
+the split (no newline after it) is emptied, the newline before it stays. -/
 def dropInjections : List Line → List Line
   | [] => []
-  | [l] => [l]
+  | [l] => if isInjection l then [[]] else [l]
   | l :: m :: rest =>
     if isInjection l then dropInjections (m :: rest) else l :: dropInjections (m :: rest)
 
@@ -198,7 +163,7 @@ def expandTabs (t : Text) : Text := t.flatMap fun c => if c = '\t' then "    ".t
 
 /-- The three text passes and the tab expansion that precede the tokenizer. `parse` is the parser
 oracle, asked about the text that `suppress_first_comments` returns. -/
-def preprocess (parse : Text → Option (List (Nat × Nat))) (t : Text) : Text :=
+def preprocess (parse : Text → Option (List IfStmt)) (t : Text) : Text :=
   let t1 := suppressFirstComments t
   expandTabs (suppressSysPath (suppressMainGuard (parse t1) t1))
 
@@ -281,11 +246,30 @@ def Kind.opensStmt : Kind → Bool
 
 def isBrace (c : Char) : Bool := c == '{' || c == '}'
 
-/-- `string.replace("{", "{{").replace("}", "}}")` -/
-def doubleBraces (s : Text) : Text := s.flatMap fun c => if isBrace c then [c, c] else [c]
+/-- `\N\{[^{}]*\}` at the beginning of `s`: the length of the match. -/
+def namedEscapeLen (s : Text) : Option Nat :=
+  match s with
+  | '\\' :: 'N' :: '{' :: r =>
+    let body := r.takeWhile fun c => !isBrace c
+    match r.drop body.length with
+    | '}' :: _ => some (body.length + 4)
+    | _ => none
+  | _ => none
 
-/-- `string.count("{") + string.count("}")` -/
-def braceCount (s : Text) : Nat := s.countP isBrace
+/-- `regex.sub(r"(\\N\{[^{}]*\})|[{}]", lambda m: m[1] or 2 * m[0], string)`: every brace is doubled,
+except those of a named escape `\N{...}`. `skip` = characters still covered by the last match. -/
+def doubleBracesAux : (skip : Nat) → Text → Text
+  | _, [] => []
+  | skip + 1, c :: cs => c :: doubleBracesAux skip cs
+  | 0, c :: cs =>
+    match namedEscapeLen (c :: cs) with
+    | some n => c :: doubleBracesAux (n - 1) cs
+    | none => if isBrace c then c :: c :: doubleBracesAux 0 cs else c :: doubleBracesAux 0 cs
+
+def doubleBraces (s : Text) : Text := doubleBracesAux 0 s
+
+/-- `len(doubled) - len(string)` -/
+def braceCount (s : Text) : Nat := (doubleBraces s).length - s.length
 
 /-- `previous_token` after a token that is not skipped by `continue`: an NL or COMMENT token does not
 hide a statement start. -/
@@ -404,7 +388,7 @@ def postprocess (ts : List Token) : Text := finish (loopText ts)
 
 /-- `Cleanup.full_cleaning`, the parser and the tokenizer being parameters; the tokenizer may raise
 (all tokens are produced before the loop starts), the loop itself cannot. -/
-def fullCleaning {ε : Type} (parse : Text → Option (List (Nat × Nat)))
+def fullCleaning {ε : Type} (parse : Text → Option (List IfStmt))
     (tokenize : Text → Except ε (List Token)) (src : Text) : Except ε Text :=
   match tokenize (preprocess parse src) with
   | .error e => .error e
